@@ -9,7 +9,7 @@ EXPLANATION = ("gix-traverse: in the simple walk (filtered/initial tips, by-comm
                "re-keying of already gated tips in sorting() is the one listed non-instance. In the topo walk the explore and indegree queue insertions "
                "are on the `!state.contains(FLAG)` edge and preceded by `*state |= FLAG`. The Kahn-style topo_queue push (gated by indegree) is not part of the claim. "
                "First-parent mode: in next_by_topology no path leads from a parent's seen.insert back to the parent-loop header without re-reading self.parents. "
-               "In expand_topo_walk the comparison with self.min_gen (which triggers compute_indegrees_to_depth) dominates every in-degree decrement. Order, cut-off semantics and equality with `git rev-list` are not decided.")
+               "In expand_topo_walk the comparison with self.min_gen (which triggers compute_indegrees_to_depth) dominates every in-degree decrement. Builder::build() stores states that carry Explored/InDegree for what it queues; Simple::sorting() consults the parents mode after filling the priority queue. Order, cut-off semantics and equality with `git rev-list` are not decided.")
 EXCEPT = {"sorting": "re-keys the tips that were test-and-set when they were added (filtered()/new())"}
 
 
